@@ -62,7 +62,7 @@ var kinds = map[string]kindDef{
 	"bool":   {typ: reflect.TypeOf(false), val: func(v string) any { return v != "z" }},
 	"int":    {typ: reflect.TypeOf(0), val: func(v string) any { return pick(v, 0, 7, 7) }},
 	"uint8":  {typ: reflect.TypeOf(uint8(0)), val: func(v string) any { return pick(v, uint8(0), uint8(200), uint8(200)) }},
-	"float":  {typ: reflect.TypeOf(0.0), val: func(v string) any { return pick(v, 0.0, 1.5, 1.5) }},
+	"float":  {typ: reflect.TypeOf(0.0), val: func(v string) any { return pick(v, 0.0, 0.1234567890123, 1e300) }},
 	"string": {typ: reflect.TypeOf(""), val: func(v string) any { return pick(v, "", "abc", "abc") }},
 	"*int":   {typ: reflect.TypeOf((*int)(nil)), val: func(v string) any { return pick(v, (*int)(nil), ip(7), ip(0)) }},
 	"*S": {typ: reflect.TypeOf((*enctypes.S1)(nil)), val: func(v string) any {
@@ -116,6 +116,25 @@ var kinds = map[string]kindDef{
 	"E4": {typ: reflect.TypeOf(enctypes.E4{}), emb: true, val: func(v string) any {
 		return pick(v, enctypes.E4{}, enctypes.E4{Ha: 11, Hb: "h", E3: enctypes.E3{Ga: 5, Gb: 6, Gc: true, Gd: 2.5, Ge: 9}, Hz: true},
 			enctypes.E4{Ha: 11, E3: enctypes.E3{Gb: 6, Gd: 2.5}})
+	}},
+	// full-precision numerics in by-value positions (member, slice element, map element) and behind a pointer
+	"N":  {typ: reflect.TypeOf(enctypes.N1{}), val: func(v string) any { return pick(v, enctypes.N1{}, n1(), enctypes.N1{Nf: -1e-300, Ni: -16777217}) }},
+	"*N": {typ: reflect.TypeOf((*enctypes.N1)(nil)), val: func(v string) any { x := n1(); return pick(v, (*enctypes.N1)(nil), &x, &enctypes.N1{}) }},
+	"[]N": {typ: reflect.TypeOf([]enctypes.N1(nil)), val: func(v string) any {
+		return pick(v, []enctypes.N1(nil), []enctypes.N1{n1(), {}}, []enctypes.N1{})
+	}},
+	"map[string]N": {typ: reflect.TypeOf(map[string]enctypes.N1(nil)), val: func(v string) any {
+		return pick(v, map[string]enctypes.N1(nil), map[string]enctypes.N1{"a": n1(), "z": {}}, map[string]enctypes.N1{})
+	}},
+	// every integer kind with `,string` (n: maxima, e: minima / upper half of the unsigned ranges) and plain
+	"IS1": {typ: reflect.TypeOf(enctypes.IS1{}), val: func(v string) any {
+		return pick(v, enctypes.IS1{},
+			enctypes.IS1{A: 127, B: 32767, C: 2147483647, D: 9223372036854775807, E: 9223372036854775807, F: 255, G: 65535, H: 4294967295, I: 18446744073709551615, J: 18446744073709551615},
+			enctypes.IS1{A: -128, B: -32768, C: -2147483648, D: -9223372036854775808, E: -9223372036854775808, F: 128, G: 50051, H: 4000000000, I: 9223372036854775808, J: 9223372036854775808})
+	}},
+	"IP1": {typ: reflect.TypeOf(enctypes.IP1{}), val: func(v string) any {
+		return pick(v, enctypes.IP1{}, enctypes.IP1{A: 127, B: 32767, C: 2147483647, D: 9007199254740991, F: 255, G: 65535, H: 4294967295, I: 9007199254740991},
+			enctypes.IP1{A: -128, B: -32768, C: -2147483648, D: -9007199254740991, F: 128, G: 50051, H: 4000000000, I: 4503599627370497})
 	}},
 	// multi-level pointer embedding: z = outer nil, e = outer set / inner nil, n = all set
 	"*P2": {typ: reflect.TypeOf((*enctypes.P2)(nil)), emb: true, val: func(v string) any {
@@ -289,6 +308,10 @@ func slicePM(v string) any {
 		a = append(a, &x)
 	}
 	return a
+}
+
+func n1() enctypes.N1 {
+	return enctypes.N1{Nf: 0.1234567890123, Ng: 1e300, Nh: 16777217, Nt: 1e-300, Ni: 16777217, Nu: 50051, Nb: true, Ns: 1.1}
 }
 
 func pick(v string, z, n, e any) any {
